@@ -143,6 +143,8 @@ def make_case(unit):
             if base is None:
                 base = list(v.view_insertions or [])
             tr["rows_dimension"]["insertions"] = list(base) + extra
+    if nparts == 1 and gen.stratum(ID, i, "allzero", 3) == 0:
+        wmode = "allzero"  # weighted table N = 0: a date strand still projects the full population
     spec = sim.CubeSpec(facets, g.weights(N, wmode),
                         ("mean",) if "numarr" in template else (), extra=shape[1])
     pop = g.pick([1000, 250000, 12345.5, 1])
